@@ -181,11 +181,12 @@ CLAIMED["C13"] = {
 CLAIMED["C10"] = {
     "text": "Table obligations decided exhaustively on the source: the two call sites and the two cache_clear partials "
             "use distinct literal cache names (the two functions' histories cannot corrupt one another), and every "
-            "access to cache/reminders/reminder_keys lies under the lock (method-level `with lock` or lock-holding "
+            "access to cache/reminders/reminder_keys lies under the one lock object __init__ creates (method-level `with lock` or lock-holding "
             "callers only). The run() algorithm itself (wrap detection, offsets, disappearing/reappearing devices, "
             "cache_clear) is checked by a bounded enumeration of snapshot histories against a reference model "
-            "(labelled bounded). Claimed as exploration, not proof: no function of this property is under a deductive "
-            "contract.",
+            "(labelled bounded). The front-end callers are under deductive contract (nowrap=True: filter consulted once "
+            "under the function's own cache name and its figures returned; nowrap=False: raw figures). Claimed as "
+            "exploration, not proof: the algorithm the property is about is not under a deductive contract.",
     "note": "bounded stand-in for _WrapNumbers.run/_remove_dead_reminders (nested dict/defaultdict/set state is outside the "
             "VC generator); threading.Lock mutual exclusion assumed.",
     "ref": "DESIGN.md section 5 (C10)",
